@@ -40,6 +40,9 @@ static int run_case(const std::string& fn, const std::vector<unsigned char>& in,
     else skipToEndOfLine(cur, end);
     if (cur < start || cur > end) { why = "cursor left the buffer"; rc = 1; }
     if (fn == "skipToEndOfLine" && start != end && cur == start) { why = "no progress"; rc = 1; }
+    if (fn == "skipNonNewlineWhitespace" && !rc)
+      for (const char* p = start; p < cur; ++p)
+        if (!(*p == ' ' || *p == '\t' || *p == '\r' || *p == '\\' || *p == '\n')) { why = "skipped a byte that is not a blank or an escaped newline"; rc = 1; }
   } else if (fn == "MakefileDepsParser::parse") {
     Rec r; r.b = start; r.n = in.size();
     MakefileDepsParser(StringRef(start, in.size()), r, false).parse();
